@@ -325,7 +325,7 @@ class TorchOps(Ops):
                      origin=tv.origin | tvv.origin)
         if len(parts) == 1 and parts[0][0] == "index":
             it = tv_of(parts[0][1])
-            if it is not None and it.kind == "tensor" and it.axes and tv.axes:
+            if it is not None and tv.axes and ((it.kind == "tensor" and it.axes) or (it.is_py and it.idx_of is not None and it.idx_of == tv.axes[0])):
                 # x[indices] = v: a scatter of v at the given positions (used as an alternative spelling of one_hot(...).sum(0))
                 out = self.tag(out.but(origin=out.origin | it.origin), "index_put", st, axis=tv.axes[0], base_poly=tv.poly, base_axes=list(tv.axes), value_poly=tvv.poly,
                                size_poly=self.size_tv(tv, 0).poly if tv.axes else None, in_idx_of=it.idx_of, in_origin=sorted(it.origin), aug=bool(aug))
